@@ -29,6 +29,8 @@ def run(tier, wd):
     for c, r in zip(cases, results):
         rep.cov["evaluations"] += 1
         why = None
+        if r.get("skipped"):
+            continue
         if r.get("hang") or r.get("crash"):
             why = "hang/crash: %s" % r
         elif r["log"] != c["log"]:
